@@ -31,7 +31,8 @@ SaveBelieved(bel, S, f) ==
 
 Proj(c) == IF c.k = "partial" THEN [k |-> "notjson", ent |-> NoSnap, extra |-> FALSE]
            ELSE [k |-> c.k, ent |-> c.ent, extra |-> c.extra]
-SkipAllowed == IF Early THEN {believed' = val'}
+SkipAllowed == IF ~alive' THEN {FALSE}
+               ELSE IF Early THEN {believed' = val'}
                ELSE {FALSE} \cup (IF disk'.target = Complete(val') THEN {TRUE} ELSE {})
 Exp == [alive |-> alive', target |-> Proj(disk'.target), val |-> val', wd |-> wd',
         skip |-> SkipAllowed]
